@@ -57,6 +57,87 @@ def _job(args):
     return (g, algo, contract_cover(g, algo))
 
 
+# ---------------------------------------------------------------- consequence for operators: every bond of a graph-built MPO is a minimum cover of its cut
+def _kuhn(adj, nV):
+    match = [-1] * nV
+
+    def aug(u, seen):
+        for v in adj[u]:
+            if not seen[v]:
+                seen[v] = True
+                if match[v] < 0 or aug(match[v], seen):
+                    match[v] = u
+                    return True
+        return False
+    return sum(aug(u, [False] * nV) for u in range(len(adj)))
+
+
+def cut_cover(words, b):
+    """minimum vertex cover (= maximum matching, Koenig) of the bipartite graph {distinct left parts} x {distinct right parts} of the term words at cut b;
+    own augmenting-path matching, independent of the library"""
+    L = sorted(set(w[:b] for w in words))
+    R = sorted(set(w[b:] for w in words))
+    adj = [set() for _ in L]
+    for w in words:
+        adj[L.index(w[:b])].add(R.index(w[b:]))
+    return _kuhn([sorted(a) for a in adj], len(R))
+
+
+def term_words(rng, structured):
+    alpha = ["I", "sigma_x", "sigma_z", "sigma_+"]
+    n = int(rng.integers(3, 6))
+    words = set()
+    if structured:
+        # several local operators of the first site share ONE right partner while another one has several: fewer rows than columns, yet the rows violate
+        # Hall's condition (the minimum cover keeps a complementary operator for the sharing rows)
+        k, m = 2, int(rng.integers(3, 5))
+        rights = set()
+        while len(rights) < m + 1:
+            r = tuple(alpha[int(x)] for x in rng.integers(0, len(alpha), size=n - 1))
+            if any(x != "I" for x in r):
+                rights.add(r)
+        rights = sorted(rights)
+        heads = ["sigma_x", "sigma_z", "sigma_+"]
+        for h in heads[:k]:
+            words.add((h,) + rights[0])
+        for r in rights[1:]:
+            words.add((heads[k],) + r)
+    else:
+        nt = int(rng.integers(2, 9))
+        while len(words) < nt:
+            w = tuple(alpha[int(x)] for x in rng.integers(0, len(alpha), size=n))
+            if any(x != "I" for x in w):
+                words.add(w)
+    return n, sorted(words)
+
+
+def w_bonds(case, led):
+    from renormalizer.model import Model, Op, basis as ba
+    from renormalizer.mps import Mpo
+    seed, chunk, per = case
+    rng = np.random.default_rng([seed, chunk, 2020])
+    for t in range(per):
+        n, words = term_words(rng, structured=(t % 3 == 0))
+        terms = []
+        for w in words:
+            sym = " ".join(x for x in w if x != "I")
+            dofs = [i for i, x in enumerate(w) if x != "I"]
+            terms.append(Op(sym, dofs, float(rng.uniform(0.5, 2.0)) * (1 if rng.random() < 0.5 else -1)))
+        model = Model([ba.BasisHalfSpin(i) for i in range(n)], terms)
+        want = [1] + [cut_cover(words, b) for b in range(1, n)] + [1]
+        hall_fails = any(cut_cover(words, b) < min(len(set(w[:b] for w in words)), len(set(w[b:] for w in words))) for b in range(1, n))
+        for algo in ("Hopcroft-Karp", "Hungarian"):
+            rep = {"nsites": n, "algo": algo, "terms": [repr(x) for x in terms], "minimum_cover_per_cut": want,
+                   "how": "Mpo(Model([BasisHalfSpin(i)...], terms), algo=algo).bond_dims vs the maximum matching of the (left part, right part) graph of the terms at every cut"}
+            try:
+                got = [int(x) for x in Mpo(model, algo=algo).bond_dims]
+            except Exception as e:
+                led.check(False, "post:Mpo.__init__:total", "Mpo.__init__", f"raised {type(e).__name__}: {e}", (seed, chunk, t, algo), {"algo": algo}, rep)
+                continue
+            led.check(got == want, "post:Mpo.__init__:every_bond_is_a_minimum_cover_of_its_cut", "_decompose_graph",
+                      f"bond_dims {got}, minimum covers {want}", (seed, chunk, t, algo), {"algo": algo}, dict(rep, bond_dims=got), nontrivial=hall_fails)
+
+
 def replay_factory():
     def replay(cex, locals_, ob):
         g = cex.get("bigraph")
@@ -176,8 +257,14 @@ def check(run):
             run.violation(oid, "bipartite_vertex_cover", f"{what} for bigraph={g} algo={algo}",
                           fields={"algo": algo, "edgeless": edgeless, "trailing_isolated_u": trailing_isolated},
                           replay={"bigraph": g, "algo": algo, "call": "bipartite_vertex_cover(bigraph, algo)"})
+    # ---- consequence for operators (the property's second half): bonds of graph-built MPOs are minimum covers of their cuts
+    from vk.rtc.harness import run_cases
+    per = 12 if run.tier == "quick" else 60
+    run_cases(run, w_bonds, [(run.seed, c, per) for c in range(16)])
     run.sample({"bigraph": [[0, 1], [1], []], "algo": "Hungarian", "contract": "cover & |cover| = brute-force minimum & table lengths"})
     run.sample({"obligation": "inv-step:bipartite_vertex_cover:while#0:I3-visited-v-matched-partner-seen[partial]", "engine": "pyvc/z3"})
     run.rule = (f"all bipartite graphs with 1..{n} U vertices and 0..{n} V vertices (adjacency lists) x both algorithms; "
-                "non-trivial = has an edge and (has an isolated U vertex or minimum cover < min(|U|,|V|))")
+                "non-trivial = has an edge and (has an isolated U vertex or minimum cover < min(|U|,|V|)); plus seeded term tables (3-5 spin sites, random and "
+                "Hall-violating structures) x both algorithms: Mpo.bond_dims == maximum matching of the (left part, right part) graph at every cut, non-trivial = some cut "
+                "whose minimum cover is smaller than both sides")
     run.exhaustive = True
